@@ -903,7 +903,7 @@ Qed.
 Lemma mask_none o : mask_addr o LANone = LANone.
 Proof. reflexivity. Qed.
 
-(* the cost admitted through the composed limiter is the cost the client limiter grants on the passed arrivals *)
+(* the cost granted through the composed limiter is the cost the client limiter grants on the passed arrivals *)
 Lemma rl_granted_passed o k t0 t1 : k <> LANone -> forall h vs t,
   rl_granted o k t0 t1 h (rl_decisions_given o t h vs) =
   lim_granted o k t0 t1 (rl_passed h vs) (lim_decisions o t (rl_passed h vs)).
@@ -955,7 +955,7 @@ Proof.
   assert (0 <? lc_limit c = true) as -> by lia. reflexivity.
 Qed.
 
-(* window bound for the cost ADMITTED through the composed limiter (global limit on or off) *)
+(* window bound for the cost GRANTED through the composed limiter (global limit on or off) *)
 Lemma composed_bound c k t0 t1 now0 h : 0 < lc_limit c -> k <> LANone ->
   lim_sorted (rl_events h) = true -> t0 <= t1 ->
   let o := set_default (cfg_opts c) in
@@ -1039,7 +1039,7 @@ Proof.
   apply (kres_g_filter c _ k M).
 Qed.
 
-(* the client bucket of subnet k evolves exactly as if only k's globally admitted arrivals existed *)
+(* the client bucket of subnet k evolves exactly as if only k's globally passed arrivals existed *)
 Lemma fold_kstep_filter o k h : forall s,
   fold_left (fun s e => fst (kstep o k s e)) h s = fold_left (fun s e => fst (kstep o k s e)) (filter (touches o k) h) s.
 Proof.
@@ -1221,7 +1221,7 @@ Proof.
   apply andb_false_iff in X. destruct X as [X|X]; unfold SCALE in *; lia.
 Qed.
 
-(* the composed limiter: a refusal by the CLIENT limit means that the cost admitted for the subnet so far plus this
+(* the composed limiter: a refusal by the CLIENT limit means that the cost granted for the subnet so far plus this
    cost exceeds the subnet's burst -- whatever the other subnets did and whatever the global bucket refused *)
 Lemma composed_refusal_own_budget c t0 h now a n tlow :
   0 < lc_limit c -> lim_sorted (rl_events h) = true ->
